@@ -115,6 +115,7 @@ package regexp2
 //@   ensures[prefix] forall k int :: 0 <= k && k < 2*old(m.matchcount[c]) ==> m.matches[c][k] == old(m.matches[c][k])
 //@   ensures[others] forall g int :: 0 <= g && g < len(m.matchcount) && g != c ==> m.matchcount[g] == old(m.matchcount[g]) && m.matches[g] == old(m.matches[g])
 //@   ensures[shape]  len(m.matchcount) == old(len(m.matchcount)) && ref(m.matchcount) == old(ref(m.matchcount)) && ref(m.matches) == old(ref(m.matches))
+//@   ensures[bal]    start >= 0 && l >= 0 && old(BalG(m, c)) ==> BalG(m, c)
 
 //@ func (m *Match) removeMatch(c int)
 //@   props C08
@@ -122,6 +123,47 @@ package regexp2
 //@   modifies m.matchcount[*]
 //@   ensures MatchWF(m) && m.matchcount[c] == old(m.matchcount[c]) - 1
 //@   ensures forall g int :: 0 <= g && g < len(m.matchcount) && g != c ==> m.matchcount[g] == old(m.matchcount[g])
+//@   ensures[bal] old(BalG(m, c)) ==> BalG(m, c)
+
+// Balancing groups (?<a-b>...): while a match is being built, a pair of a group's interval array is either a real
+// capture (index >= 0, length >= 0) or a marker written by balanceMatch: (-3-t, -4-t) "the capture at offset t was
+// cancelled", with t == -2 for "nothing left". Invariant BalG: a marker at offset k points strictly below k, to an
+// even offset, and to a REAL capture (never to another marker). matchIndex/matchLength follow exactly one marker, so
+// this is what keeps their second read inside the array and non-negative.
+//@ spec func RealAt(m *Match, c int, k int) bool = m.matches[c][k] >= 0 && m.matches[c][k+1] >= 0
+//@ spec func MarkerAt(m *Match, c int, k int) bool = m.matches[c][k] < 0 && m.matches[c][k+1] == m.matches[c][k] - 1 &&
+//@     (-3 - m.matches[c][k]) % 2 == 0 && -2 <= -3 - m.matches[c][k] && -3 - m.matches[c][k] <= k - 2 &&
+//@     (-3 - m.matches[c][k] >= 0 ==> RealAt(m, c, -3 - m.matches[c][k]))
+//@ spec func BalG(m *Match, c int) bool = forall k int {m.matches[c][k]} {mark(k)} :: 0 <= k && k < 2*m.matchcount[c] && k % 2 == 0 ==> RealAt(m, c, k) || MarkerAt(m, c, k)
+// the group has a capture that has not been cancelled (what isMatched computes)
+//@ spec func Matched(m *Match, c int) bool = 0 <= c && c < len(m.matchcount) && m.matchcount[c] > 0 && m.matches[c][2*m.matchcount[c]-1] != -2
+
+//@ func (m *Match) isMatched(cap int) (b bool)
+//@   props C08
+//@   requires MatchWF(m) && 0 <= cap
+//@   ensures b == Matched(m, cap)
+
+//@ func (m *Match) matchIndex(cap int) (i int)
+//@   props C08 C10
+//@   requires MatchWF(m) && Matched(m, cap) && BalG(m, cap)
+//@   ensures[real] i >= 0
+
+//@ func (m *Match) matchLength(cap int) (l int)
+//@   props C08 C10
+//@   requires MatchWF(m) && Matched(m, cap) && BalG(m, cap)
+//@   requires[trigger] mark(2*m.matchcount[cap]-2)
+//@   ensures[real] l >= 0
+
+//@ func (m *Match) balanceMatch(c int)
+//@   props C08
+//@   requires MatchWF(m) && Matched(m, c) && BalG(m, c)
+//@   modifies m.balancing, m.matches[*], m.matchcount[*], m.matches[c][*]
+//@   ensures[wf]     MatchWF(m) && m.balancing
+//@   ensures[count]  m.matchcount[c] == old(m.matchcount[c]) + 1
+//@   ensures[marker] MarkerAt(m, c, 2*old(m.matchcount[c]))
+//@   ensures[bal]    BalG(m, c)
+//@   ensures[prefix] forall k int :: 0 <= k && k < 2*old(m.matchcount[c]) ==> m.matches[c][k] == old(m.matches[c][k])
+//@   ensures[others] forall g int :: 0 <= g && g < len(m.matchcount) && g != c ==> m.matchcount[g] == old(m.matchcount[g]) && m.matches[g] == old(m.matches[g])
 
 //@ func (m *Match) reset(text *matchText, textstart int)
 //@   props C08 C12
